@@ -292,6 +292,8 @@ def run_injectors(ctx, conn):
         ctx.case((text, repr(params)), phase != 'parse')
         ctx.count('injectors.executed')
         ctx.seen('rules', rule)
+        if len(ctx.samples) < 3 and phase != 'parse' and idx % 7 == 0:
+            ctx.sample({'rule': rule, 'text': text, 'params': repr(params), 'expected': expect, 'observed': f'{phase}: {outcome}'})
         rejected = outcome in ('ParseError', 'CompilationError', 'ProgrammingError')
         if exc is not None and rejected:
             check_location(ctx, exc, text, case)
@@ -392,6 +394,8 @@ def run_robustness(ctx, conn, n):
     phase, outcome, exc = attempt(conn, text, None, execute=False)
     ctx.case(('robust', text), phase != 'parse')
     ctx.count(f'obs.robust.{phase}.{outcome}')
+    if len(ctx.samples) < 5 and n % 11 == 0:
+        ctx.sample({'mutated_text': text, 'observed': f'{phase}: {outcome}'})
     case = {'replay': ['robust', n], 'text': text, 'base': base}
     if outcome in ('ParseError', 'CompilationError', 'ProgrammingError'):
         check_location(ctx, exc, text, case)
